@@ -14,7 +14,7 @@
 From Coq Require Import Arith List ZArith Ring Field.
 Require Import Base.C02_Ops Model.C02_Integration Proofs.C02_IntegrationProofs Gen.C02Gen Dyn.C02Tie.
 Require Model.C08_Rules Proofs.C08_TensorProofs.
-Require Import Base.C09_Poly Base.C09_PolyQ Model.C02_PolyInt Proofs.C02_PolyIntProofs Gen.C02Elems Dyn.C02TieElems.
+Require Import Base.Corr Base.C09_Poly Base.C09_PolyQ Model.C02_PolyInt Proofs.C02_PolyIntProofs Gen.C02Elems Dyn.C02TieElems.
 Import ListNotations.
 
 Section AnyRing.
@@ -246,6 +246,57 @@ Theorem C02_affine_mass_factorises :
   = rsum O (seq 0 ne) (fun e => omul O (absf (detA e)) (rsum O (seq 0 nq) (fun q => omul O (omul O (phi i q) (phi j q)) (W q)))).
 Proof. intros R O Rth ne nq phi absf detA W i j. exact (affine_mass_factorises R O Rth ne nq phi (fun e => absf (detA e)) W i j). Qed.
 Print Assumptions C02_affine_mass_factorises.
+
+(* ================================================================== deepening round 3 *)
+(* the integral does not depend on the representation: normalisation keeps it, and two polynomials that the
+   verified equality test identifies have the same integral over every cell *)
+Theorem C02_pint_representation_independent : forall (s : C08_Rules.shape) (p q : poly),
+  QArith_base.Qeq (pint s (pnorm p)) (pint s p) /\ (peqb p q = true -> QArith_base.Qeq (pint s p) (pint s q)).
+Proof. intros. split; [apply pint_pnorm|apply pint_peqb]. Qed.
+Print Assumptions C02_pint_representation_independent.
+
+(* reference stiffness TENSORS  T^{kl}_ij = int d_k phi_i d_l phi_j  (P1/P2 on segment, triangle, tetrahedron):
+   the d x d families of rational literals are exact *)
+Theorem C02_reference_tensor_exact :
+  Forall (fun e => tensors_eqb (tensors_ref (fst (fst e)) (snd (fst e))) (snd e) = true) tensor_elements.
+Proof. exact tensor_elements_ok. Qed.
+Print Assumptions C02_reference_tensor_exact.
+
+(* stiffness on a GENERAL affine cell, any commutative ring: with the physical gradient B^T grad^ (B = inverse Jacobian,
+   the generated invA which is the two-sided inverse by C02_invA_is_inverse) and dx as written in CellBasis,
+     sum_q (grad phi_i . grad phi_j)(x_q) dx(e,q) = |detA_e| * sum_{k,l} (B B^T)_kl * (sum_q d_k phi_i d_l phi_j W_q),
+   i.e. exact physical entry = |detA| * sum_kl G_kl T^{kl}_ij.  ASSUMED (not formalised): chain rule
+   grad (phi o F^-1) = A^-T grad^ phi and change of variables. *)
+Theorem C02_affine_stiffness_contraction :
+  forall (R : Type) (O : ops R), ring_theory (o0 O) (o1 O) (oadd O) (omul O) (osub O) (oopp O) (@eq R) ->
+  forall (d : nat) (B gi gj : nat -> nat -> R) (absf : R -> R) (detA : nat -> R) (W : nat -> R) (e nq : nat),
+  d = 1 \/ d = 2 \/ d = 3 ->
+  rsum O (seq 0 nq) (fun q => omul O (gdot O d B gi gj q) (gen_cell_dx O absf (gen_detDF detA) W e q))
+  = omul O (absf (detA e)) (rsum O (seq 0 d) (fun k => rsum O (seq 0 d) (fun l =>
+      omul O (gramB O d B k l) (rsum O (seq 0 nq) (fun q => omul O (omul O (gi k q) (gj l q)) (W q)))))).
+Proof. exact affine_stiffness_contraction. Qed.
+Print Assumptions C02_affine_stiffness_contraction.
+
+(* load vectors: the literals int x^m phi_i (all monomials of degree <= 2) are exact, and every rule good for the order
+   2 + maxdeg integrates x^m phi_i to within l1 * tol of them (polynomial data by linearity of pint and qrule_int) *)
+Theorem C02_assembled_reference_load_close :
+  forall s n vals ms lits, In (s, n, vals, ms, lits) load_elements ->
+  loads_eqb (map (load_ref s vals) ms) lits = true /\
+  forall (R : C08_Rules.qrule) (tol : QArith_base.Q), C08_Rules.rule_okQ s R n tol -> forall m a, In m ms -> In a vals ->
+    QArith_base.Qle (Qabs.Qabs (QArith_base.Qminus (qrule_int R (C08_Rules.dim s) (pmul [(QArith_base.Qmake 1 1, m)] a))
+                                                   (pint s (pmul [(QArith_base.Qmake 1 1, m)] a))))
+                    (QArith_base.Qmult (l1 (pmul [(QArith_base.Qmake 1 1, m)] a)) tol).
+Proof. exact assembled_ref_load_close. Qed.
+Print Assumptions C02_assembled_reference_load_close.
+
+(* facet mass matrices: for every local facet (parametrisation read from refdom.p / refdom.facets) the literal is the exact
+   integral of phi_i phi_j over the reference facet w.r.t. the parameter measure; the physical facet mass is detB times it,
+   detB^2 = Gram determinant of the facet's edge vectors (C02_detB_is_gram_partial) *)
+Theorem C02_reference_facet_mass_exact :
+  Forall (fun e => list_eqb qmat_eqb (map (fun F => facet_mass_ref (fst (fst (fst e))) F (snd (fst e))) (snd (fst (fst e)))) (snd e) = true)
+         facet_elements.
+Proof. exact facet_elements_ok. Qed.
+Print Assumptions C02_reference_facet_mass_exact.
 
 (* which rule a basis integrates with (regenerated from AbstractBasis.__init__): an explicitly given quadrature rule
    always wins over intorder; otherwise the table is asked for intorder, or 2*maxdeg when none is given *)
